@@ -39,3 +39,11 @@ Proof. reflexivity. Qed.
 Theorem C01_head_and_field_tables_agree :
   opcode_tables_irregular = ["ToHeaderType OpMapPtr: { c.Op = OpMap return OpStructHeadMapPtr }"; "ToHeaderType OpArrayPtr: { c.Op = OpArray return OpStructHeadArrayPtr }"; "ToHeaderType OpSlicePtr: { c.Op = OpSlice return OpStructHeadSlicePtr }"; "ToFieldType OpMapPtr: { c.Op = OpMap return OpStructFieldMapPtr }"; "ToFieldType OpArrayPtr: { c.Op = OpArray return OpStructFieldArrayPtr }"; "ToFieldType OpSlicePtr: { c.Op = OpSlice return OpStructFieldSlicePtr }"]%string /\ opcode_tables_cases = 52%nat.
 Proof. split; reflexivity. Qed.
+
+(* the interpreter's cases for values that implement encoding.TextMarshaler are the text of the cases for
+   json.Marshaler with the method renamed (head and field, with and without omitempty, behind pointers: 14 pairs);
+   the one pair that differs is the top-level case, where a nil non-pointer value is written as an empty string *)
+Theorem C01_text_marshaler_cases_follow_their_json_twins :
+  marshaler_twin_cases_differing = ["OpMarshalText"]%string /\ marshaler_twin_cases = 14%nat.
+Proof. split; reflexivity. Qed.
+
